@@ -380,6 +380,57 @@ func c10Universe(maxDepth int) ([]*c10Type, explore.Stats) {
 		}
 		all = append(all, extra...)
 	}
+	// wide scalar domains (after seed C10h): the leaves above have two values each.  Integers at and around every
+	// power-of-two boundary a narrower representation would have (8, 16, 31, 32, 53 bits: float64 holds 53; 62, 63)
+	// with both signs, neighbours that differ by one; strings that differ in case, by a trailing / leading blank, a NUL,
+	// in the last of 1000 bytes, composed vs. decomposed accents, invalid UTF-8.  Each domain as scalar, as the single
+	// element of a slice, first component of a pair, payload of Opt: all three ways fc lowers `=` see them.
+	{
+		var ints []c10Val
+		seenI := map[string]bool{}
+		addI := func(x string) {
+			if !seenI[x] {
+				seenI[x] = true
+				ints = append(ints, c10Val{x, x, "literal"})
+			}
+		}
+		for _, b := range []uint{0, 7, 8, 15, 16, 31, 32, 53, 62} {
+			for _, d := range []int64{-1, 0, 1} {
+				v := int64(1)<<b + d
+				addI(fmt.Sprint(v))
+				addI(fmt.Sprint(-v))
+			}
+		}
+		for _, x := range []string{"9223372036854775807", "9223372036854775806", "-9223372036854775807", "-9223372036854775808", "9007199254740994", "4611686018427388416"} {
+			addI(x)
+		}
+		long := strings.Repeat("a", 999)
+		var strs []c10Val
+		for _, x := range []string{"", "a", "A", "b", "ab", "a ", " a", "a\\x00", "\\x00", "\\u00e9", "e\\u0301", "\\xff", "\\xfe", "\\n", "\\r\\n", long + "a", long + "b", "b" + long} {
+			strs = append(strs, c10Val{`"` + x + `"`, `"` + x + `"`, "literal"})
+		}
+		// the same long text produced differently (a concatenation): an equal twin
+		strs = append(strs, c10Val{`"` + long + "a" + `"`, `("` + long + `" + "a")`, "concatenation"})
+		var extra []*c10Type
+		for _, dm := range []struct {
+			kind, ty string
+			vals     []c10Val
+		}{{"int-wide", "int", ints}, {"string-wide", "string", strs}} {
+			base := &c10Type{id: len(all) + len(extra), kind: dm.kind, fo: dm.ty, gt: dm.ty, vals: dm.vals}
+			extra = append(extra, base)
+			sl := &c10Type{id: len(all) + len(extra), kind: "slice-of-" + dm.kind, fo: "[]" + dm.ty, gt: "[]" + dm.ty, depth: 1, comps: []*c10Type{base}}
+			pr := &c10Type{id: len(all) + len(extra) + 1, kind: "pair-of-" + dm.kind, fo: "(" + dm.ty + ")*(bool)", gt: "frt.Tuple2[" + dm.ty + ", bool]", depth: 1, comps: []*c10Type{base}}
+			op := &c10Type{id: len(all) + len(extra) + 2, kind: "opt-of-" + dm.kind, fo: "Opt<" + dm.ty + ">", gt: "Opt[" + dm.ty + "]", depth: 1, hasUnion: true, comps: []*c10Type{base}}
+			for _, v := range dm.vals {
+				sl.vals = append(sl.vals, c10Val{"[" + v.canon + "]", "[]" + dm.ty + "{" + v.goX + "}", "slice literal"})
+				pr.vals = append(pr.vals, c10Val{"(" + v.canon + ",true)", "frt.NewTuple2[" + dm.ty + ", bool](" + v.goX + ", true)", "tuple"})
+				op.vals = append(op.vals, c10Val{"Some(" + v.canon + ")", "New_Opt_Some[" + dm.ty + "](" + v.goX + ")", "constructor"})
+			}
+			op.vals = append(op.vals, c10Val{"None", "New_Opt_None[" + dm.ty + "]()", "constructor"})
+			extra = append(extra, sl, pr, op)
+		}
+		all = append(all, extra...)
+	}
 	for i, t := range all {
 		if t.id != i {
 			// ids are assigned in enumeration order; names embed them
